@@ -1782,6 +1782,7 @@ fn main() {
         seqcount::pipe_threaded(&mut ctx, &mut wpc, &mut r2, if thorough { 1500 } else { 150 });
         seqcount::grammar_sessions(&mut ctx, &mut wsg, &mut r2, if thorough { 120 } else { 20 });
         seqcount::append_failures(&mut ctx, &mut waf, &mut r2, thorough);
+        seqcount::session_refused_write(&mut ctx);
     }
     if only_seq {
         ctx.deadline = std::time::Instant::now();
